@@ -402,6 +402,11 @@ int ESolver::AnalyzeProblem(CBigLinProb &L)
 	extZo*=units[LengthUnits];
 	kludge=1;
 
+	// couplings between floating conductors (CircType==0) and nodes with a prescribed value:
+	// the element-level elimination below removes them from the matrix, so they are kept
+	// here and put back when the conductor equations are finished
+	std::vector<double> condK(NumCircProps,0.),condB(NumCircProps,0.);
+
     //TheView->SetDlgItemText(IDC_FRAME1,"Matrix Construction");
 
 	// do some book-keeping related to fixed boundary conditions;
@@ -555,6 +560,12 @@ int ESolver::AnalyzeProblem(CBigLinProb &L)
 				for(k=0;k<3;k++)
 				{
 					if(j!=k){
+						if(meshnode[n[k]].InConductor>=0)
+							if(circproplist[meshnode[n[k]].InConductor].CircType==0)
+							{
+								condK[meshnode[n[k]].InConductor]-=Me[k][j];
+								condB[meshnode[n[k]].InConductor]+=Me[k][j]*L.V[n[j]];
+							}
 						be[k]-=Me[k][j]*L.V[n[j]];
 						Me[k][j]=0;
 						Me[j][k]=0;
@@ -622,10 +633,10 @@ int ESolver::AnalyzeProblem(CBigLinProb &L)
 
 		if(circproplist[i].CircType==0)
 		{
-			for(j=0,K=0;j<L.n;j++) if(j!=k) K+=L.Get(k,j);
+			for(j=0,K=condK[i];j<L.n;j++) if(j!=k) K+=L.Get(k,j);
 			if(K!=0){
 				L.Put(-K,k,k);
-				L.b[k]=(1.e9)*c*circproplist[i].q;
+				L.b[k]=(1.e9)*c*circproplist[i].q+condB[i];
 			}
 			else L.Put(L.Get(0,0),k,k);
 
